@@ -1098,15 +1098,22 @@ class FortranFile:
         post_lines = []
         if forward:
             if self.fixed:
-                if line_ind < self.nLines:
+                # Comment and blank lines may stand between continuation lines,
+                # they are kept (as empty entries) only when one follows
+                skipped: list[str] = []
+                while line_ind < self.nLines:
                     next_line = self.get_line(line_ind, pp_content)
                     line_ind += 1
-                    cont_match = FRegex.FIXED_CONT.match(next_line)
-                    while (cont_match is not None) and (line_ind < self.nLines):
+                    if FRegex.FIXED_CONT.match(next_line):
+                        post_lines.extend(skipped)
+                        skipped = []
                         post_lines.append(" " * 6 + next_line[6:])
-                        next_line = self.get_line(line_ind, pp_content)
-                        line_ind += 1
-                        cont_match = FRegex.FIXED_CONT.match(next_line)
+                    elif next_line.strip() == "" or FRegex.FIXED_COMMENT.match(
+                        next_line
+                    ):
+                        skipped.append("")
+                    else:
+                        break
             else:
                 line_stripped = strip_strings(curr_line, maintain_len=True)
                 iAmper = line_stripped.find("&")
